@@ -261,7 +261,7 @@ def effect_set(fn):
             if direction and not t:
                 continue          # "not the left child": the arm's own assertion (or the mirror) names the case
             guards.append("%s=%s" % (ce, t))
-        out.add((tuple(sorted(guards)), eff))
+        out.add((tuple(sorted(set(guards))), eff))
     return out
 
 
